@@ -1,4 +1,15 @@
 import XpmVerif.Model.Sched
+/-! Proofs for C08 (token capacity) over the scheduler model `Model/Sched.lean`.
+
+    Invariant `Inv s N` (= `GInv s N none`), preserved by every event for ANY flags:
+    * per job `j` (`KJ`): the number of `start j` / `wake j` / `resume j`+helper-thread continuations pending
+      is exactly the one its `pc` calls for (one coroutine, one continuation); `held ≠ [] → pc ∈
+      {lockExitAbort, lockExitRun, codeWait}`; `pc ∈ {lockExitRun, codeWait} → held = range deps.length`;
+      `state = running → pc ∈ {lockExitRun, codeWait}`;
+    * indices `≥ N` (`N ≤ s.n`) are untouched (`pc = none`);
+    * `CapC`: `avail t + Σ_{j<n} heldTok (jobs j) t = total t` and `0 ≤ avail t` for every `t`.
+    While a callback of job `j` runs, `GInv s N (some (j, e1, e2))` holds: `j` has no registered continuation
+    (`KF`), every other job satisfies `KJ`. -/
 namespace XpmVerif.Sched
 
 def tokCount (o : Origin) (t : Nat) : Nat :=
@@ -348,4 +359,867 @@ theorem acquireAll_eq (s : St) (j k d : Nat) :
         · intro hn
           show d :: acq = List.range' d (k + 1)
           rw [h3 hn]; rfl
+
+/-! ### the state invariant -/
+/-- per-job predicate: the job named by the mode `m` is in flight, every other job is at rest. -/
+def PJ (m : Option (Nat × Bool × Bool)) (j : Nat) (jb : Job) (cs cw cr : Nat) : Prop :=
+  match m with
+  | some (j0, e1, e2) => if j = j0 then KF e1 e2 jb cs cw cr else KJ jb cs cw cr
+  | none => KJ jb cs cw cr
+
+def CapC (n : Nat) (jobs : Nat → Job) (avail : Nat → Int) (total : Nat → Nat) : Prop :=
+  ∀ t, avail t + (sumTo n (fun j => heldTok (jobs j) t) : Nat) = (total t : Int) ∧ 0 ≤ avail t
+
+def GI (n : Nat) (jobs : Nat → Job) (ready : List Cb) (threads : List (TK × Nat)) (avail : Nat → Int)
+    (total : Nat → Nat) (N : Nat) (m : Option (Nat × Bool × Bool)) : Prop :=
+  (∀ j, PJ m j (jobs j) (nS ready j) (nW ready j) (nR ready j + nT threads j)) ∧
+  (∀ j, N ≤ j → (jobs j).pc = .none) ∧ N ≤ n ∧ CapC n jobs avail total
+
+def GInv (s : St) (N : Nat) (m : Option (Nat × Bool × Bool)) : Prop :=
+  GI s.n s.jobs s.ready s.threads s.avail s.total N m
+
+theorem CapC_same {n jobs avail total} (j : Nat) (jb' : Job)
+    (hh : ∀ t, heldTok jb' t = heldTok (jobs j) t) (h : CapC n jobs avail total) :
+    CapC n (upd jobs j jb') avail total := by
+  intro t
+  have : sumTo n (fun i => heldTok (upd jobs j jb' i) t) = sumTo n (fun i => heldTok (jobs i) t) := by
+    apply sumTo_congr; intro i _
+    by_cases hi : i = j
+    · subst hi; simp [hh]
+    · simp [upd, hi]
+  rw [this]; exact h t
+
+theorem CapC_move {n jobs avail total} (j : Nat) (jb' : Job) (avail' : Nat → Int) (hj : j < n)
+    (hh : ∀ t, avail' t + (heldTok jb' t : Nat) = avail t + (heldTok (jobs j) t : Nat))
+    (hp : ∀ t, 0 ≤ avail' t) (h : CapC n jobs avail total) :
+    CapC n (upd jobs j jb') avail' total := by
+  intro t
+  have h1 := sumTo_upd (f := fun i => heldTok (jobs i) t) (j := j) (v := heldTok jb' t) hj
+  have h2 : sumTo n (fun i => heldTok (upd jobs j jb' i) t) = sumTo n (upd (fun i => heldTok (jobs i) t) j (heldTok jb' t)) := by
+    apply sumTo_congr; intro i _
+    by_cases hi : i = j
+    · subst hi; simp
+    · simp [upd, hi]
+  rw [h2]
+  have := h t; have := hh t; have := hp t
+  omega
+
+theorem heldTok_eq {jb jb' : Job} (hh : jb'.held = jb.held) (ho : jb'.deps.map (·.origin) = jb.deps.map (·.origin)) (t : Nat) :
+    heldTok jb' t = heldTok jb t := by
+  unfold heldTok; rw [hh]; exact sumTok_congr ho _ _
+
+theorem GI_upd {n jobs ready threads avail total N m} (h : GI n jobs ready threads avail total N m)
+    (m' : Option (Nat × Bool × Bool)) (j : Nat) (jb' : Job) (cbs : List Cb) (ths : List (TK × Nat)) (avail' : Nat → Int)
+    (hpc : N ≤ j → jb'.pc = .none)
+    (hother : ∀ i, i ≠ j → nS cbs i = 0 ∧ nW cbs i = 0 ∧ nR cbs i = 0 ∧ nT ths i = 0)
+    (hm : ∀ i, i ≠ j → ∀ jb a b c, PJ m i jb a b c → PJ m' i jb a b c)
+    (hj : PJ m' j jb' (nS ready j + nS cbs j) (nW ready j + nW cbs j) (nR ready j + nR cbs j + (nT threads j + nT ths j)))
+    (hcap : CapC n (upd jobs j jb') avail' total) :
+    GI n (upd jobs j jb') (ready ++ cbs) (threads ++ ths) avail' total N m' := by
+  obtain ⟨h1, h2, h3, _⟩ := h
+  refine ⟨?_, ?_, h3, hcap⟩
+  · intro i
+    by_cases hi : i = j
+    · subst hi; simpa using hj
+    · obtain ⟨a, b, c, d⟩ := hother i hi
+      simp [upd, hi, a, b, c, d]
+      exact hm i hi _ _ _ _ (h1 i)
+  · intro i hN
+    by_cases hi : i = j
+    · subst hi; simpa using hpc hN
+    · simp [upd, hi]; exact h2 i hN
+
+theorem PJ_cases {m j jb a b c} (h : PJ m j jb a b c) :
+    (KJ jb a b c ∧ ∀ jb' a' b' c', KJ jb' a' b' c' → PJ m j jb' a' b' c') ∨
+    (∃ e1 e2, KF e1 e2 jb a b c ∧ m = some (j, e1, e2) ∧ ∀ jb' a' b' c', KF e1 e2 jb' a' b' c' → PJ m j jb' a' b' c') := by
+  unfold PJ at h
+  split at h
+  · next j0 e1 e2 =>
+    split at h
+    · next hj => subst hj; right; exact ⟨e1, e2, h, rfl, fun _ _ _ _ h' => by simp [PJ, h']⟩
+    · next hj => left; exact ⟨h, fun _ _ _ _ h' => by simp [PJ, hj, h']⟩
+  · left; exact ⟨h, fun _ _ _ _ h' => by simp [PJ, h']⟩
+
+theorem check_eq (fl : Flags) (s : St) (j d : Nat) :
+    s.check fl j d = s.put j (depChanged fl (s.jobs j) d (s.status ((s.jobs j).deps.getD d default).origin)).1
+      (if (depChanged fl (s.jobs j) d (s.status ((s.jobs j).deps.getD d default).origin)).2 = true then [.wake j] else []) := rfl
+
+theorem check_GInv {fl s N m} (j d : Nat) (h : GInv s N m) (hm : ∀ j0 e1 e2, m = some (j0, e1, e2) → e1 = true) :
+    GInv (s.check fl j d) N m := by
+  rw [check_eq]
+  generalize (s.status ((s.jobs j).deps.getD d default).origin) = st
+  have hpc := depChanged_pc fl (s.jobs j) d st
+  have hheld := depChanged_held fl (s.jobs j) d st
+  have hor := depChanged_origins fl (s.jobs j) d st
+  refine GI_upd h m j _ _ [] s.avail ?_ ?_ (fun _ _ _ _ _ _ h => h) ?_ ?_
+  · intro hN; rw [hpc]; exact h.2.1 j hN
+  · intro i hi
+    have : ¬ (j = i) := fun e => hi e.symm
+    split <;> simp [this]
+  · rcases PJ_cases (h.1 j) with ⟨hk, hb⟩ | ⟨e1, e2, hk, hme, hb⟩
+    · apply hb
+      have := depChanged_KJ fl _ d st _ _ _ hk
+      split <;> simp_all
+    · have he1 := hm _ _ _ hme; subst he1
+      apply hb
+      have := depChanged_KF fl _ d st _ _ _ _ hk
+      simp [this.2]; exact this.1
+  · exact CapC_same j _ (heldTok_eq hheld hor) h.2.2.2
+
+theorem PJ_fly_other {j e1 e2 i jb a b c} (m' : Option (Nat × Bool × Bool)) (hm' : m' = none ∨ ∃ e1' e2', m' = some (j, e1', e2'))
+    (hi : i ≠ j) (h : PJ (some (j, e1, e2)) i jb a b c) : PJ m' i jb a b c := by
+  rcases hm' with rfl | ⟨e1', e2', rfl⟩ <;> simpa [PJ, hi] using h
+
+theorem fly_fresh {s N j e1 e2} (h : GInv s N (some (j, e1, e2))) : ¬ N ≤ j := by
+  intro hN
+  have h1 := h.1 j
+  have h2 := h.2.1 j hN
+  simp [PJ, KF] at h1
+  exact h1.2.2.2.2.1 h2
+
+theorem fly_KF {s N j e1 e2} (h : GInv s N (some (j, e1, e2))) :
+    KF e1 e2 (s.jobs j) 0 0 0 ∧ nS s.ready j = 0 ∧ nW s.ready j = 0 ∧ nR s.ready j = 0 ∧ nT s.threads j = 0 := by
+  have h1 := h.1 j
+  simp [PJ, KF] at h1 ⊢
+  obtain ⟨a, b, c, d⟩ := h1
+  exact ⟨d, a, b, c⟩
+
+/-- the flying job lands: its record gets a fresh `pc` together with the matching continuation. -/
+theorem land {s N j e1 e2} (h : GInv s N (some (j, e1, e2))) (jb' : Job) (cbs : List Cb) (ths : List (TK × Nat))
+    (hheld : jb'.held = (s.jobs j).held) (hor : jb'.deps.map (·.origin) = (s.jobs j).deps.map (·.origin))
+    (hother : ∀ i, i ≠ j → nS cbs i = 0 ∧ nW cbs i = 0 ∧ nR cbs i = 0 ∧ nT ths i = 0)
+    (hK : KJ jb' (nS cbs j) (nW cbs j) (nR cbs j + nT ths j)) :
+    GInv (s.put j jb' cbs ths) N none := by
+  obtain ⟨_, a, b, c, d⟩ := fly_KF h
+  refine GI_upd h none j jb' cbs ths s.avail (fun hN => absurd hN (fly_fresh h)) hother
+    (fun i hi _ _ _ _ h' => PJ_fly_other none (Or.inl rfl) hi h') ?_ (CapC_same j _ (heldTok_eq hheld hor) h.2.2.2)
+  simp [PJ, a, b, c, d]; exact hK
+
+/-- the flying job stays in flight (no continuation registered). -/
+theorem stay {s N j e1 e2} (h : GInv s N (some (j, e1, e2))) (e1' e2' : Bool) (jb' : Job) (cbs : List Cb)
+    (hcbs : ∀ cb ∈ cbs, cb.inert = true)
+    (hheld : jb'.held = (s.jobs j).held) (hor : jb'.deps.map (·.origin) = (s.jobs j).deps.map (·.origin))
+    (hK : KF e1' e2' jb' 0 0 0) :
+    GInv (s.put j jb' cbs) N (some (j, e1', e2')) := by
+  obtain ⟨_, a, b, c, d⟩ := fly_KF h
+  have i1 := nS_inert hcbs; have i2 := nW_inert hcbs; have i3 := nR_inert hcbs
+  refine GI_upd h (some (j, e1', e2')) j jb' cbs [] s.avail (fun hN => absurd hN (fly_fresh h))
+    (fun i _ => ⟨i1 i, i2 i, i3 i, rfl⟩)
+    (fun i hi _ _ _ _ h' => PJ_fly_other _ (Or.inr ⟨_, _, rfl⟩) hi h') ?_ (CapC_same j _ (heldTok_eq hheld hor) h.2.2.2)
+  simp [PJ, a, b, c, d, i1, i2, i3]; exact hK
+
+theorem finish_GInv {s N j} (h : GInv s N (some (j, true, true))) : GInv (s.finish j) N none := by
+  obtain ⟨hk, _⟩ := fly_KF h
+  unfold St.finish
+  simp only []
+  have key : ∀ s' : St, GInv s' N (some (j, true, true)) → s'.jobs j = s.jobs j →
+      GInv (s'.put j { (s.jobs j) with pc := .doneHandler } [] [(.doneH, j)]) N none := by
+    intro s' h' hj
+    refine land h' _ _ _ (by rw [hj]) (by rw [hj]) ?_ ?_
+    · intro i hi; have : ¬ j = i := fun e => hi e.symm; simp [this]
+    · simp [KF] at hk
+      simp [KJ, PC.res, PC.holds, PC.run, hk]
+  split
+  · exact key _ h rfl
+  · exact key _ h rfl
+
+theorem loopHead_GInv {s N j} (h : GInv s N (some (j, true, true))) : GInv (s.loopHead j) N none := by
+  obtain ⟨hk, _⟩ := fly_KF h
+  simp [KF] at hk
+  have hne : ∀ i, i ≠ j → ¬ j = i := fun i hi e => hi e.symm
+  unfold St.loopHead
+  simp only []
+  split
+  · exact finish_GInv h
+  · split
+    · split
+      · refine land h _ _ _ rfl rfl ?_ ?_
+        · intro i hi; simp [hne i hi]
+        · simp [KJ, PC.res, PC.holds, PC.run, hk]
+      · refine land h _ _ _ rfl rfl ?_ ?_
+        · intro i hi; simp
+        · simp [KJ, PC.res, PC.holds, PC.run, hk]
+    · refine land h _ _ _ rfl rfl ?_ ?_
+      · intro i hi; simp
+      · simp [KJ, PC.res, PC.holds, PC.run, hk]
+
+/-! ### taking a callback off the ready queue -/
+theorem pop_inert {n jobs cb rest threads avail total N} (h : GI n jobs (cb :: rest) threads avail total N none)
+    (hcb : cb.inert = true) : GI n jobs rest threads avail total N none := by
+  refine ⟨fun i => ?_, h.2⟩
+  have := h.1 i
+  have a : nS [cb] i = 0 := nS_inert (by simpa using hcb) i
+  have b : nW [cb] i = 0 := nW_inert (by simpa using hcb) i
+  have c : nR [cb] i = 0 := nR_inert (by simpa using hcb) i
+  simp at a b c
+  simpa [PJ, a, b, c] using this
+
+theorem pop_start {n jobs j rest threads avail total N} (h : GI n jobs (.start j :: rest) threads avail total N none) :
+    GI n jobs rest threads avail total N (some (j, true, true)) ∧ (jobs j).pc = .created := by
+  have hj := h.1 j
+  simp [PJ, KJ] at hj
+  obtain ⟨h1, h2, h3, h4, h5, h6, h7⟩ := hj
+  have hpc : (jobs j).pc = .created := by
+    by_cases hp : (jobs j).pc = .created
+    · exact hp
+    · simp [hp] at h1
+  refine ⟨⟨fun i => ?_, h.2⟩, hpc⟩
+  by_cases hi : i = j
+  · subst hi
+    simp [hpc, PC.res, PC.holds, PC.run] at h1 h2 h3 h4 h5 h6 h7
+    simp [PJ, KF, hpc, h1, h2, h3, h4, h5, h7]
+  · have := h.1 i
+    have hne : ¬ j = i := fun e => hi e.symm
+    simpa [PJ, hi, hne] using this
+
+theorem pop_wake {n jobs j rest threads avail total N} (h : GI n jobs (.wake j :: rest) threads avail total N none) :
+    GI n jobs rest threads avail total N (some (j, true, true)) ∧ (jobs j).pc = .evtWait := by
+  have hj := h.1 j
+  simp [PJ, KJ] at hj
+  obtain ⟨h1, h2, h3, h4, h5, h6, h7⟩ := hj
+  have hpc : (jobs j).pc = .evtWait ∧ (jobs j).sleeping = false := by
+    by_cases hp : (jobs j).pc = .evtWait ∧ (jobs j).sleeping = false
+    · exact hp
+    · rw [if_neg hp] at h2; omega
+  refine ⟨⟨fun i => ?_, h.2⟩, hpc.1⟩
+  by_cases hi : i = j
+  · subst hi
+    simp [hpc, PC.res, PC.holds, PC.run] at h1 h2 h3 h4 h5 h6 h7
+    simp [PJ, KF, hpc, h1, h2, h3, h5, h7]
+  · have := h.1 i
+    have hne : ¬ j = i := fun e => hi e.symm
+    simpa [PJ, hi, hne] using this
+
+theorem pop_resume {n jobs j rest threads avail total N} (h : GI n jobs (.resume j :: rest) threads avail total N none) :
+    GI n jobs rest threads avail total N (some (j, false, false)) ∧ (jobs j).pc.res = true ∧
+      ((jobs j).held ≠ [] → (jobs j).pc.holds = true) ∧
+      ((jobs j).pc.run = true → (jobs j).held = List.range (jobs j).deps.length) ∧
+      ((jobs j).state = .running → (jobs j).pc.run = true) := by
+  have hj := h.1 j
+  simp [PJ, KJ] at hj
+  obtain ⟨h1, h2, h3, h4, h5, h6, h7⟩ := hj
+  have hpc : (jobs j).pc.res = true := by
+    by_cases hp : (jobs j).pc.res = true
+    · exact hp
+    · rw [if_neg hp] at h3; omega
+  refine ⟨⟨fun i => ?_, h.2⟩, hpc, by simpa using h5, by simpa using h6, by simpa using h7⟩
+  by_cases hi : i = j
+  · subst hi
+    have hs : (jobs i).sleeping = false := by
+      cases hsl : (jobs i).sleeping
+      · rfl
+      · have := h4 hsl; rw [this] at hpc; simp [PC.res] at hpc
+    have hc : (jobs i).pc ≠ .created := by intro e; rw [e] at hpc; simp [PC.res] at hpc
+    have he : (jobs i).pc ≠ .evtWait := by intro e; rw [e] at hpc; simp [PC.res] at hpc
+    have hn : (jobs i).pc ≠ .none := by intro e; rw [e] at hpc; simp [PC.res] at hpc
+    simp [hpc, hc, he] at h1 h2 h3
+    simp [PJ, KF, h1, h2, hs, hn]
+    omega
+  · have := h.1 i
+    have hne : ¬ j = i := fun e => hi e.symm
+    simpa [PJ, hi, hne] using this
+
+/-! ### callbacks -/
+theorem registerDeps_GInv {fl s N m} (j k d : Nat) (h : GInv s N m) (hm : ∀ j0 e1 e2, m = some (j0, e1, e2) → e1 = true) :
+    GInv (St.registerDeps fl s j k d) N m := by
+  induction k generalizing s d with
+  | zero => exact h
+  | succ k ih =>
+    unfold St.registerDeps
+    simp only []
+    apply ih
+    apply check_GInv _ _ _ hm
+    split <;> exact h
+
+theorem startJob_GInv {fl s N j} (h : GInv s N (some (j, true, true))) : GInv (s.startJob fl j) N none := by
+  obtain ⟨hk, _⟩ := fly_KF h
+  simp [KF] at hk
+  unfold St.startJob
+  simp only []
+  apply loopHead_GInv
+  have hm : ∀ j0 e1 e2, some (j, true, true) = some (j0, e1, e2) → e1 = true := by
+    intro j0 e1 e2 e; simp at e; exact e.2.1
+  have h1 : GInv (s.put j { (s.jobs j) with state := .waiting, event := false, sleeping := false }) N (some (j, true, true)) :=
+    stay h true true _ [] (by simp) rfl rfl (by simp [KF, hk])
+  have key : ∀ s2 : St, GInv s2 N (some (j, true, true)) →
+      GInv (if (s2.jobs j).marker = true then s2.put j { (s2.jobs j) with state := .done } else s2) N (some (j, true, true)) := by
+    intro s2 h2
+    split
+    · obtain ⟨hk2, _⟩ := fly_KF h2
+      simp [KF] at hk2
+      exact stay h2 true true _ [] (by simp) rfl rfl (by simp [KF, hk2])
+    · exact h2
+  apply key
+  split
+  · exact stay h1 true true _ [] (by simp) (by simp [St.put]) (by simp [St.put]) (by simp [KF, hk])
+  · apply registerDeps_GInv _ _ _ _ hm
+    exact stay h1 true true _ [] (by simp) (by simp [St.put]) (by simp [St.put]) (by simp [KF, hk])
+
+theorem wake_GInv {fl s N j} (h : GInv s N (some (j, true, true))) : GInv (s.runCb fl (.wake j)) N none := by
+  obtain ⟨hk, _⟩ := fly_KF h
+  simp [KF] at hk
+  have hne : ∀ i, i ≠ j → ¬ j = i := fun i hi e => hi e.symm
+  unfold St.runCb
+  simp only []
+  split
+  · refine land h _ _ _ rfl rfl ?_ ?_
+    · intro i hi; simp [hne i hi]
+    · simp [KJ, PC.res, PC.holds, PC.run, hk]
+  · apply loopHead_GInv
+    exact stay h true true _ [] (by simp) rfl rfl (by simp [KF, hk])
+
+theorem eventSet_nosleep (jb : Job) (h : jb.sleeping = false) :
+    (eventSet jb).2 = false ∧ (eventSet jb).1.sleeping = false ∧ (eventSet jb).1.held = jb.held ∧
+    (eventSet jb).1.pc = jb.pc ∧ (eventSet jb).1.state = jb.state ∧ (eventSet jb).1.deps = jb.deps := by
+  unfold eventSet; split
+  · simp [h]
+  · simp [h]
+
+theorem GI_ready_inert {n jobs ready threads avail total N m} (h : GI n jobs ready threads avail total N m)
+    (l : List Cb) (hl : ∀ cb ∈ l, cb.inert = true) : GI n jobs (ready ++ l) threads avail total N m := by
+  refine ⟨fun i => ?_, h.2⟩
+  simpa [nS_inert hl, nW_inert hl, nR_inert hl] using h.1 i
+
+/-- releasing everything held by the flying job. -/
+theorem releaseAll_GInv {s N j e1} (h : GInv s N (some (j, e1, false))) :
+    GInv (s.releaseAll j (s.jobs j).held) N (some (j, e1, true)) ∧
+    ((s.releaseAll j (s.jobs j).held).jobs j) = { (s.jobs j) with held := [] } := by
+  obtain ⟨notes, hn, he⟩ := releaseAll_eq s j (s.jobs j).held
+  rw [he]
+  obtain ⟨hk, a, b, c, d⟩ := fly_KF h
+  have i1 := nS_inert hn; have i2 := nW_inert hn; have i3 := nR_inert hn
+  have hjn : j < s.n := by have := fly_fresh h; have := h.2.2.1; omega
+  refine ⟨?_, by simp [St.put]⟩
+  have g := GI_upd h (some (j, e1, true)) j { (s.jobs j) with held := [] } notes []
+    (fun t => s.avail t + (sumTok (s.jobs j).deps (s.jobs j).held t : Nat)) (fun hN => absurd hN (fly_fresh h))
+    (fun i _ => ⟨i1 i, i2 i, i3 i, rfl⟩)
+    (fun i hi _ _ _ _ h' => PJ_fly_other _ (Or.inr ⟨_, _, rfl⟩) hi h')
+  simp only [List.append_nil] at g
+  unfold GInv St.put; simp only [List.append_nil]
+  apply g
+  · simp [KF] at hk
+    simp [PJ, KF, a, b, c, d, i1, i2, i3, hk.1, hk.2.1]
+    exact hk.2.2
+  · apply CapC_move j _ _ hjn _ _ h.2.2.2
+    · intro t; simp [heldTok]
+    · intro t; have := (h.2.2.2 t).2; omega
+
+theorem resume_abort_GInv {fl s N j} (h : GInv s N (some (j, false, false))) (hpc : (s.jobs j).pc = .lockExitAbort)
+    (hst : (s.jobs j).state = .running → (s.jobs j).pc.run = true) : GInv (s.resume fl j) N none := by
+  have hnr : (s.jobs j).state ≠ .running := by
+    intro e; have := hst e; rw [hpc] at this; simp [PC.run] at this
+  have h1 : GInv s N (some (j, true, false)) := by
+    refine ⟨fun i => ?_, h.2⟩
+    have := h.1 i
+    by_cases hi : i = j
+    · subst hi; simp [PJ, KF] at this ⊢; simp [this, hnr]
+    · simpa [PJ, hi] using this
+  obtain ⟨h2, hj⟩ := releaseAll_GInv h1
+  unfold St.resume
+  simp only [hpc]
+  apply loopHead_GInv
+  generalize s.releaseAll j (s.jobs j).held = s1 at h2 hj ⊢
+  obtain ⟨hk, _⟩ := fly_KF h2
+  simp [KF] at hk
+  split
+  · have := eventSet_nosleep { (s1.jobs j) with state := .ready } hk.1
+    simp only [] at this
+    obtain ⟨e1, e2, e3, e4, e5, e6⟩ := this
+    rw [e1]
+    refine stay h2 true true _ _ (by simp) (by rw [e3]) (by rw [e6]) ?_
+    exact ⟨rfl, rfl, rfl, e2, by rw [e4]; exact hk.2.1, fun _ => by rw [e5]; simp, fun _ => by rw [e3]; exact hk.2.2.2⟩
+  · exact stay h2 true true _ _ (by simp) rfl rfl (by simp [KF, hk])
+
+theorem resume_code_GInv {fl s N j} (h : GInv s N (some (j, false, false))) (hpc : (s.jobs j).pc = .codeWait) :
+    GInv (s.resume fl j) N none := by
+  obtain ⟨h2, hj⟩ := releaseAll_GInv h
+  unfold St.resume
+  simp only [hpc]
+  apply finish_GInv
+  generalize s.releaseAll j (s.jobs j).held = s1 at h2 hj ⊢
+  obtain ⟨hk, _⟩ := fly_KF h2
+  simp [KF] at hk
+  refine stay h2 true true _ _ (by simp) rfl rfl ?_
+  simp [KF, hk]
+  split <;> simp
+
+theorem resume_run_GInv {fl s N j} (h : GInv s N (some (j, false, false))) (hpc : (s.jobs j).pc = .lockExitRun)
+    (hrun : (s.jobs j).pc.run = true → (s.jobs j).held = List.range (s.jobs j).deps.length) :
+    GInv (s.resume fl j) N none := by
+  obtain ⟨hk, _⟩ := fly_KF h
+  simp [KF] at hk
+  have hne : ∀ i, i ≠ j → ¬ j = i := fun i hi e => hi e.symm
+  have hr := hrun (by rw [hpc]; rfl)
+  unfold St.resume
+  simp only [hpc]
+  refine land h _ _ _ rfl rfl ?_ ?_
+  · intro i hi; simp [hne i hi]
+  · simp [KJ, PC.res, PC.holds, PC.run, hk, hr]
+
+theorem resume_done_GInv {fl s N j} (h : GInv s N (some (j, false, false))) (hpc : (s.jobs j).pc = .doneHandler)
+    (hh : (s.jobs j).held ≠ [] → (s.jobs j).pc.holds = true)
+    (hst : (s.jobs j).state = .running → (s.jobs j).pc.run = true) : GInv (s.resume fl j) N none := by
+  obtain ⟨hk, _⟩ := fly_KF h
+  simp [KF] at hk
+  have hheld : (s.jobs j).held = [] := by
+    by_cases e : (s.jobs j).held = []
+    · exact e
+    · have := hh e; rw [hpc] at this; simp [PC.holds] at this
+  have hnr : (s.jobs j).state ≠ .running := by
+    intro e; have := hst e; rw [hpc] at this; simp [PC.run] at this
+  unfold St.resume
+  simp only [hpc]
+  have key : ∀ s3 : St, GInv s3 N (some (j, false, false)) → s3.jobs j = s.jobs j →
+      GInv (s3.put j { (s3.jobs j) with pc := .finished (s3.jobs j).state }) N none := by
+    intro s3 h3 hj
+    refine land h3 _ _ _ rfl rfl (by intro i hi; simp) ?_
+    rw [hj]
+    simp [KJ, PC.res, PC.holds, PC.run, hk, hheld, hnr]
+  apply key
+  · apply GI_ready_inert
+    · split
+      · exact GI_ready_inert h [.waiterRun] (by simp [Cb.inert])
+      · exact h
+    · intro cb hcb; simp at hcb; obtain ⟨a, b, _, rfl⟩ := hcb; rfl
+  · split <;> rfl
+
+theorem resume_enter_GInv {fl s N j} (h : GInv s N (some (j, false, false))) (hpc : (s.jobs j).pc = .lockEnter)
+    (hh : (s.jobs j).held ≠ [] → (s.jobs j).pc.holds = true)
+    (hst : (s.jobs j).state = .running → (s.jobs j).pc.run = true) : GInv (s.resume fl j) N none := by
+  obtain ⟨hk, a, b, c, d⟩ := fly_KF h
+  simp [KF] at hk
+  have hheld : (s.jobs j).held = [] := by
+    by_cases e : (s.jobs j).held = []
+    · exact e
+    · have := hh e; rw [hpc] at this; simp [PC.holds] at this
+  have hnr : (s.jobs j).state ≠ .running := by
+    intro e; have := hst e; rw [hpc] at this; simp [PC.run] at this
+  have hjn : j < s.n := by have := fly_fresh h; have := h.2.2.1; omega
+  have hne : ∀ i, i ≠ j → ¬ j = i := fun i hi e => hi e.symm
+  obtain ⟨acq, av', he, h1, h2, h3⟩ := acquireAll_eq s j (s.jobs j).deps.length 0
+  have hcap : ∀ jb' : Job, jb'.held = acq → jb'.deps = (s.jobs j).deps → CapC s.n (upd s.jobs j jb') av' s.total := by
+    intro jb' e1 e2
+    apply CapC_move j _ _ hjn _ _ h.2.2.2
+    · intro t; have := h1 t; simp [heldTok, e1, e2, hheld]; omega
+    · exact h2 (fun t => (h.2.2.2 t).2)
+  unfold St.resume
+  simp only [hpc]
+  generalize hq : s.acquireAll j (s.jobs j).deps.length 0 = q at he h3
+  obtain ⟨sa, r⟩ := q
+  simp only [] at he h3 ⊢
+  subst he
+  cases r with
+  | none =>
+    have hacq : acq = List.range (s.jobs j).deps.length := by rw [h3 rfl]; simp [List.range_eq_range']
+    simp only [hheld, List.nil_append]
+    have g := GI_upd h none j
+      { (s.jobs j) with held := acq, launches := (s.jobs j).launches + 1, state := .running, pc := .lockExitRun }
+      [] [(.lockExit, j)] av' (fun hN => absurd hN (fly_fresh h))
+      (by intro i hi; simp [hne i hi]) (fun i hi _ _ _ _ h' => PJ_fly_other none (Or.inl rfl) hi h')
+      (by simp [PJ, KJ, a, b, c, d, PC.res, PC.holds, PC.run, hk, hacq]) (hcap _ rfl rfl)
+    unfold GInv St.put
+    simp only [List.append_nil, upd_upd, upd_same] at g ⊢
+    exact g
+  | some d' =>
+    simp only [hheld, List.nil_append]
+    have g := GI_upd h (some (j, true, false)) j { (s.jobs j) with held := acq } [] [] av'
+      (fun hN => absurd hN (fly_fresh h))
+      (by intro i hi; simp) (fun i hi _ _ _ _ h' => PJ_fly_other _ (Or.inr ⟨_, _, rfl⟩) hi h')
+      (by simp [PJ, KF, a, b, c, d, hk, hnr]) (hcap _ rfl rfl)
+    have hm : ∀ j0 e1 e2, some (j, true, false) = some (j0, e1, e2) → e1 = true := by
+      intro j0 e1 e2 e; simp at e; exact e.2.1
+    have g' : GInv (({ s with avail := av' }).put j { (s.jobs j) with held := acq }) N (some (j, true, false)) := g
+    have g2 := check_GInv (fl := fl) j d' g' hm
+    obtain ⟨hk2, _⟩ := fly_KF g2
+    simp [KF] at hk2
+    refine land g2 _ _ _ rfl rfl (by intro i hi; simp [hne i hi]) ?_
+    simp [KJ, PC.res, PC.holds, PC.run, hk2]
+
+theorem resume_GInv {fl s N j} (h : GInv s N (some (j, false, false))) (hres : (s.jobs j).pc.res = true)
+    (hh : (s.jobs j).held ≠ [] → (s.jobs j).pc.holds = true)
+    (hrun : (s.jobs j).pc.run = true → (s.jobs j).held = List.range (s.jobs j).deps.length)
+    (hst : (s.jobs j).state = .running → (s.jobs j).pc.run = true) : GInv (s.resume fl j) N none := by
+  cases hpc : (s.jobs j).pc with
+  | lockEnter => exact resume_enter_GInv h hpc hh hst
+  | lockExitAbort => exact resume_abort_GInv h hpc hst
+  | lockExitRun => exact resume_run_GInv h hpc hrun
+  | codeWait => exact resume_code_GInv h hpc
+  | doneHandler => exact resume_done_GInv h hpc hh hst
+  | none => rw [hpc] at hres; simp [PC.res] at hres
+  | created => rw [hpc] at hres; simp [PC.res] at hres
+  | evtWait => rw [hpc] at hres; simp [PC.res] at hres
+  | finished r => rw [hpc] at hres; simp [PC.res] at hres
+
+/-- the invariant at rest (between two steps). -/
+def Inv (s : St) (N : Nat) : Prop := GInv s N none
+
+theorem hm_none : ∀ (j0 : Nat) (e1 e2 : Bool), (none : Option (Nat × Bool × Bool)) = some (j0, e1, e2) → e1 = true := by
+  intro _ _ _ e; simp at e
+
+theorem step_Inv {fl s N} (h : Inv s N) : Inv (s.step fl) N := by
+  unfold St.step
+  split
+  · exact h
+  · next cb rest hr =>
+    have h' : GI s.n s.jobs (cb :: rest) s.threads s.avail s.total N none := by
+      have := h; unfold Inv GInv at this; rw [hr] at this; exact this
+    cases cb with
+    | register j =>
+      have h0 : GInv { s with ready := rest } N none := pop_inert h' rfl
+      show GInv (St.register fl { s with ready := rest } j) N none
+      unfold St.register
+      simp only []
+      repeat' split
+      all_goals exact h0
+    | start j =>
+      obtain ⟨h0, _⟩ := pop_start h'
+      exact startJob_GInv (s := { s with ready := rest }) h0
+    | wake j =>
+      obtain ⟨h0, _⟩ := pop_wake h'
+      exact wake_GInv (s := { s with ready := rest }) h0
+    | resume j =>
+      obtain ⟨h0, a, b, c, d⟩ := pop_resume h'
+      exact resume_GInv (s := { s with ready := rest }) h0 a b c d
+    | check j d =>
+      have h0 : GInv { s with ready := rest } N none := pop_inert h' rfl
+      exact check_GInv j d h0 hm_none
+    | notifyCheck j d =>
+      have h0 : GInv { s with ready := rest } N none := pop_inert h' rfl
+      show GInv (St.runCb fl { s with ready := rest } (.notifyCheck j d)) N none
+      unfold St.runCb
+      simp only []
+      split
+      · split
+        · exact check_GInv j d h0 hm_none
+        · exact h0
+      · exact check_GInv j d h0 hm_none
+    | waiterRun =>
+      have h0 : GInv { s with ready := rest } N none := pop_inert h' rfl
+      show GInv (St.waiterRun { s with ready := rest }) N none
+      unfold St.waiterRun
+      split <;> exact h0
+
+theorem steps_Inv {fl s N} (k : Nat) (h : Inv s N) : Inv (St.steps fl s k) N := by
+  induction k generalizing s with
+  | zero => exact h
+  | succ k ih => exact ih (step_Inv h)
+
+/-! ### `n` is changed by `submit` only -/
+@[simp] theorem put_n (s : St) (j jb cbs ths) : (s.put j jb cbs ths).n = s.n := rfl
+@[simp] theorem check_n (fl s j d) : (St.check fl s j d).n = s.n := rfl
+@[simp] theorem finish_n (s : St) (j) : (s.finish j).n = s.n := by
+  unfold St.finish; simp only []; split <;> rfl
+@[simp] theorem loopHead_n (s : St) (j) : (s.loopHead j).n = s.n := by
+  unfold St.loopHead; simp only []; repeat' split
+  all_goals simp
+@[simp] theorem registerDeps_n (fl s j k d) : (St.registerDeps fl s j k d).n = s.n := by
+  induction k generalizing s d with
+  | zero => rfl
+  | succ k ih => unfold St.registerDeps; simp only []; rw [ih]; simp; split <;> rfl
+@[simp] theorem releaseAll_n (s : St) (j ds) : (s.releaseAll j ds).n = s.n := by
+  obtain ⟨_, _, he⟩ := releaseAll_eq s j ds; rw [he]; rfl
+@[simp] theorem acquireAll_n (s : St) (j k d) : (s.acquireAll j k d).1.n = s.n := by
+  obtain ⟨_, _, he, _⟩ := acquireAll_eq s j k d; rw [he]; rfl
+@[simp] theorem startJob_n (fl s j) : (St.startJob fl s j).n = s.n := by
+  unfold St.startJob; simp only []; simp
+  split <;> split <;> simp
+@[simp] theorem resume_n (fl s j) : (St.resume fl s j).n = s.n := by
+  unfold St.resume; simp only []
+  split
+  · split <;> simp
+  all_goals first | rfl | (simp; done) | (simp; split <;> rfl)
+@[simp] theorem runCb_n (fl s cb) : (St.runCb fl s cb).n = s.n := by
+  cases cb <;> simp [St.runCb]
+  · unfold St.register; simp only []; repeat' split
+    all_goals rfl
+  · split <;> simp
+  · split
+    · split <;> rfl
+    · rfl
+  · unfold St.waiterRun; split <;> rfl
+@[simp] theorem step_n (fl s) : (St.step fl s).n = s.n := by
+  unfold St.step; split
+  · rfl
+  · simp
+@[simp] theorem steps_n (fl s k) : (St.steps fl s k).n = s.n := by
+  induction k generalizing s with
+  | zero => rfl
+  | succ k ih => unfold St.steps; rw [ih]; simp
+
+/-! ### events -/
+theorem GI_N_mono {n jobs ready threads avail total N m} (h : GI n jobs ready threads avail total N m)
+    (N' : Nat) (h1 : N ≤ N') (h2 : N' ≤ n) : GI n jobs ready threads avail total N' m :=
+  ⟨h.1, fun j hj => h.2.1 j (by omega), h2, h.2.2.2⟩
+
+theorem KJ_none {jb : Job} {a b c : Nat} (h : KJ jb a b c) (hpc : jb.pc = .none) :
+    a = 0 ∧ b = 0 ∧ c = 0 ∧ jb.sleeping = false ∧ jb.held = [] ∧ jb.state ≠ .running := by
+  simp [KJ, hpc, PC.res, PC.holds, PC.run] at h
+  obtain ⟨h1, h2, h3, h4, h5, h6⟩ := h
+  exact ⟨h1, h2, h3, h4, h5, h6⟩
+
+theorem submit_pre {s N} (h : Inv s N) (jb : Job) (hjb : KJ jb 0 0 0) (hpc : jb.pc = .none) (hheld : jb.held = []) :
+    GI (s.n + 1) (upd s.jobs s.n jb) (s.ready ++ [.register s.n]) s.threads s.avail s.total N none := by
+  obtain ⟨h1, h2, h3, h4⟩ := h
+  refine ⟨fun i => ?_, fun i hi => ?_, by omega, fun t => ?_⟩
+  · by_cases hi : i = s.n
+    · subst hi
+      obtain ⟨a, b, c, _⟩ := KJ_none (h1 s.n) (h2 s.n h3)
+      simp only [PJ] at a b c ⊢
+      have c' : nR s.ready s.n = 0 ∧ nT s.threads s.n = 0 := by omega
+      simp [a, b, c'.1, c'.2]; exact hjb
+    · have := h1 i
+      simpa [PJ, upd, hi] using this
+  · by_cases hi' : i = s.n
+    · subst hi'; simp [hpc]
+    · simp [upd, hi']; exact h2 i hi
+  · have : sumTo (s.n + 1) (fun j => heldTok (upd s.jobs s.n jb j) t) = sumTo s.n (fun j => heldTok (s.jobs j) t) := by
+      simp only [sumTo, upd_same]
+      have e : sumTo s.n (fun j => heldTok (upd s.jobs s.n jb j) t) = sumTo s.n (fun j => heldTok (s.jobs j) t) := by
+        apply sumTo_congr; intro i hi; have : i ≠ s.n := by omega
+        simp [upd, this]
+      rw [e]; simp [heldTok, hheld]
+    rw [this]; exact h4 t
+
+/-- the three phases of `submit`. -/
+def mkJob (s : St) (ident : Nat) (deps : List Origin) (code : Nat) (marker : Bool) : Job :=
+  { ident := ident, deps := deps.map (fun o => match o with
+      | .job d => { origin := .job (s.eff d) : Dep }
+      | o => { origin := o }), code := code, marker := marker }
+def submitPre (s : St) (jb : Job) : St :=
+  { s with n := s.n + 1, jobs := upd s.jobs s.n jb, regResult := none, ready := s.ready ++ [.register s.n] }
+def submitPost (j : Nat) (s2 : St) : St :=
+  match s2.regResult with
+  | some (some o) => { s2 with eff := upd s2.eff j o }
+  | _ => ({ s2 with eff := upd s2.eff j j }).put j { (s2.jobs j) with pc := .created } [.start j]
+
+theorem apply_submit_eq (fl : Flags) (s : St) (ident deps code marker) :
+    s.apply fl (.submit ident deps code marker) =
+      submitPost s.n (St.steps fl (submitPre s (mkJob s ident deps code marker)) (s.ready.length + 1)) := rfl
+
+theorem submitPost_Inv {s2 N j} (h2 : Inv s2 N) (hN : N ≤ j) (hn : s2.n = j + 1) : Inv (submitPost j s2) (j + 1) := by
+  have h3 : GInv s2 (j + 1) none := GI_N_mono h2 (j + 1) (by omega) (by omega)
+  unfold submitPost
+  split
+  · exact h3
+  · have hp := h2.2.1 j hN
+    obtain ⟨a, b, c, d, e, f⟩ := KJ_none (h2.1 j) hp
+    have c' : nR s2.ready j = 0 ∧ nT s2.threads j = 0 := by omega
+    refine GI_upd h3 none j _ [.start j] [] s2.avail (by omega) ?_ (fun _ _ _ _ _ _ h' => h') ?_
+      (CapC_same _ _ (heldTok_eq rfl rfl) h3.2.2.2)
+    · intro i hi; have : ¬ j = i := fun e => hi e.symm
+      simp [this]
+    · simp [PJ, KJ, a, b, c'.1, c'.2, d, e, f, PC.res, PC.holds, PC.run]
+
+theorem apply_Inv {fl s N} (ev : Ev) (h : Inv s N) : ∃ N', Inv (s.apply fl ev) N' := by
+  cases ev with
+  | step => exact ⟨N, step_Inv h⟩
+  | wait => exact ⟨N, GI_ready_inert h [.waiterRun] (by simp [Cb.inert])⟩
+  | deliver k =>
+    refine ⟨N, ?_⟩
+    unfold St.apply
+    simp only []
+    split
+    · next a j hk =>
+      refine ⟨fun i => ?_, h.2⟩
+      have := h.1 i
+      have e := nT_eraseIdx s.threads k a j i hk
+      simp only [PJ, nS_append, nW_append, nR_append, nS_cons, nW_cons, nR_cons, nS_nil, nW_nil, nR_nil] at this ⊢
+      have r1 : (if Cb.resume j = Cb.start i then 1 else 0) = 0 := by simp
+      have r2 : (if Cb.resume j = Cb.wake i then 1 else 0) = 0 := by simp
+      have r3 : (if Cb.resume j = Cb.resume i then 1 else 0) = (if j = i then 1 else 0) := by simp
+      rw [r1, r2, r3]
+      have : nR s.ready i + (0 + if j = i then 1 else 0) + nT (s.threads.eraseIdx k) i = nR s.ready i + nT s.threads i := by omega
+      rw [this]; simpa using ‹KJ _ _ _ _›
+    · exact h
+  | submit ident deps code marker =>
+    refine ⟨s.n + 1, ?_⟩
+    have hN : N ≤ s.n := h.2.2.1
+    rw [apply_submit_eq]
+    have h1 : Inv (submitPre s (mkJob s ident deps code marker)) N :=
+      submit_pre h _ (by simp [mkJob, KJ, PC.res, PC.holds, PC.run]) rfl rfl
+    have h2 := steps_Inv (fl := fl) (s.ready.length + 1) h1
+    exact submitPost_Inv h2 hN (by simp [submitPre])
+
+theorem init_Inv (totals : List Nat) : Inv (St.init totals) 0 := by
+  refine ⟨fun i => ?_, fun _ _ => rfl, Nat.le_refl _, fun t => ?_⟩
+  · simp [PJ, KJ, St.init, PC.res, PC.holds, PC.run]
+  · simp [St.init, sumTo]
+
+/-- the states the scheduler can be in: any list of events applied to the initial state (any workload, any
+    schedule of callbacks and helper-thread completions, any token table). -/
+def Reachable (fl : Flags) (totals : List Nat) (s : St) : Prop :=
+  ∃ evs : List Ev, s = evs.foldl (St.apply fl) (St.init totals)
+
+theorem foldl_Inv {fl} (evs : List Ev) {s N} (h : Inv s N) : ∃ N', Inv (evs.foldl (St.apply fl) s) N' := by
+  induction evs generalizing s N with
+  | nil => exact ⟨N, h⟩
+  | cons ev evs ih =>
+    obtain ⟨N', h'⟩ := apply_Inv (fl := fl) ev h
+    exact ih h'
+
+theorem Reachable.inv {fl totals s} (h : Reachable fl totals s) : ∃ N, Inv s N := by
+  obtain ⟨evs, rfl⟩ := h
+  exact foldl_Inv evs (init_Inv totals)
+
+/-! ### `total` never changes -/
+@[simp] theorem put_total (s : St) (j jb cbs ths) : (s.put j jb cbs ths).total = s.total := rfl
+@[simp] theorem check_total (fl s j d) : (St.check fl s j d).total = s.total := rfl
+@[simp] theorem finish_total (s : St) (j) : (s.finish j).total = s.total := by
+  unfold St.finish; simp only []; split <;> rfl
+@[simp] theorem loopHead_total (s : St) (j) : (s.loopHead j).total = s.total := by
+  unfold St.loopHead; simp only []; repeat' split
+  all_goals simp
+@[simp] theorem registerDeps_total (fl s j k d) : (St.registerDeps fl s j k d).total = s.total := by
+  induction k generalizing s d with
+  | zero => rfl
+  | succ k ih => unfold St.registerDeps; simp only []; rw [ih]; simp; split <;> rfl
+@[simp] theorem releaseAll_total (s : St) (j ds) : (s.releaseAll j ds).total = s.total := by
+  obtain ⟨_, _, he⟩ := releaseAll_eq s j ds; rw [he]; rfl
+@[simp] theorem acquireAll_total (s : St) (j k d) : (s.acquireAll j k d).1.total = s.total := by
+  obtain ⟨_, _, he, _⟩ := acquireAll_eq s j k d; rw [he]; rfl
+@[simp] theorem startJob_total (fl s j) : (St.startJob fl s j).total = s.total := by
+  unfold St.startJob; simp only []; simp
+  split <;> split <;> simp
+@[simp] theorem resume_total (fl s j) : (St.resume fl s j).total = s.total := by
+  unfold St.resume; simp only []
+  split
+  · split <;> simp
+  all_goals first | rfl | (simp; done) | (simp; split <;> rfl)
+@[simp] theorem runCb_total (fl s cb) : (St.runCb fl s cb).total = s.total := by
+  cases cb <;> simp [St.runCb]
+  · unfold St.register; simp only []; repeat' split
+    all_goals rfl
+  · split <;> simp
+  · split
+    · split <;> rfl
+    · rfl
+  · unfold St.waiterRun; split <;> rfl
+@[simp] theorem step_total (fl s) : (St.step fl s).total = s.total := by
+  unfold St.step; split
+  · rfl
+  · simp
+@[simp] theorem steps_total (fl s k) : (St.steps fl s k).total = s.total := by
+  induction k generalizing s with
+  | zero => rfl
+  | succ k ih => unfold St.steps; rw [ih]; simp
+theorem apply_total (fl s ev) : (St.apply fl s ev).total = s.total := by
+  cases ev with
+  | step => simp [St.apply]
+  | wait => rfl
+  | deliver k => unfold St.apply; simp only []; split <;> rfl
+  | submit ident deps code marker =>
+    rw [apply_submit_eq]; unfold submitPost; split <;> simp [submitPre]
+
+theorem Reachable.total {fl totals s} (h : Reachable fl totals s) : s.total = fun t => totals.getD t 0 := by
+  obtain ⟨evs, rfl⟩ := h
+  suffices ∀ s0 : St, (evs.foldl (St.apply fl) s0).total = s0.total from this _
+  induction evs with
+  | nil => intro _; rfl
+  | cons ev evs ih => intro s0; simp only [List.foldl]; rw [ih, apply_total]
+
+/-! ### consequences of the invariant -/
+theorem sumTo_zero {n : Nat} {f : Nat → Nat} (h : ∀ i, i < n → f i = 0) : sumTo n f = 0 := by
+  induction n with
+  | zero => rfl
+  | succ n ih => simp [sumTo, ih (fun i hi => h i (by omega)), h n (by omega)]
+
+theorem Inv.cap {s N} (h : Inv s N) (t : Nat) :
+    s.avail t + (sumTo s.n (fun j => heldTok (s.jobs j) t) : Nat) = (s.total t : Int) ∧ 0 ≤ s.avail t := h.2.2.2 t
+
+theorem Inv.job {s N} (h : Inv s N) (j : Nat) :
+    ((s.jobs j).held ≠ [] → (s.jobs j).pc.holds = true) ∧
+    ((s.jobs j).pc.run = true → (s.jobs j).held = List.range (s.jobs j).deps.length) ∧
+    ((s.jobs j).state = .running → (s.jobs j).pc.run = true) := by
+  have := h.1 j
+  simp only [PJ, KJ] at this
+  exact ⟨this.2.2.2.2.1, this.2.2.2.2.2.1, this.2.2.2.2.2.2⟩
+
+theorem heldTok_all {jb : Job} (h : jb.held = List.range jb.deps.length) (t : Nat) : heldTok jb t = request jb t := by
+  unfold heldTok request; rw [h]; exact sumTok_range _ _
+
+theorem Inv.launched_le {s N} (h : Inv s N) (t : Nat) :
+    sumTo s.n (fun j => if (s.jobs j).pc.run = true then request (s.jobs j) t else 0) ≤ s.total t := by
+  have h1 : sumTo s.n (fun j => if (s.jobs j).pc.run = true then request (s.jobs j) t else 0)
+      ≤ sumTo s.n (fun j => heldTok (s.jobs j) t) := by
+    apply sumTo_le; intro i _
+    show (if (s.jobs i).pc.run = true then request (s.jobs i) t else 0) ≤ heldTok (s.jobs i) t
+    split
+    · next hr => rw [heldTok_all ((h.job i).2.1 hr)]; exact Nat.le_refl _
+    · exact Nat.zero_le _
+  have := h.cap t
+  omega
+
+theorem Inv.running_le {s N} (h : Inv s N) (t : Nat) :
+    sumTo s.n (fun j => if (s.jobs j).state = .running then request (s.jobs j) t else 0) ≤ s.total t := by
+  refine Nat.le_trans ?_ (h.launched_le t)
+  apply sumTo_le; intro i _
+  show (if (s.jobs i).state = .running then request (s.jobs i) t else 0) ≤
+    (if (s.jobs i).pc.run = true then request (s.jobs i) t else 0)
+  split
+  · next hr => simp [(h.job i).2.2 hr]
+  · exact Nat.zero_le _
+
+theorem Inv.idle_full {s N} (h : Inv s N) (hr : s.ready = []) (ht : s.threads = []) (t : Nat) :
+    s.avail t = s.total t ∧ ∀ j, (s.jobs j).held = [] := by
+  have hh : ∀ j, (s.jobs j).held = [] := by
+    intro j
+    have := h.1 j
+    simp only [PJ, KJ, hr, ht, nR_nil, nT_nil] at this
+    by_cases e : (s.jobs j).held = []
+    · exact e
+    · have h1 := this.2.2.2.2.1 e
+      have h2 := this.2.2.1
+      have : (s.jobs j).pc.res = true := by
+        revert h1; cases (s.jobs j).pc <;> simp [PC.holds, PC.res]
+      simp [this] at h2
+  refine ⟨?_, hh⟩
+  have := h.cap t
+  rw [sumTo_zero (fun i _ => by simp [heldTok, hh i])] at this
+  omega
+
+/-! ### release on every exit path (no reachability needed) -/
+@[simp] theorem finish_avail (s : St) (j) : (s.finish j).avail = s.avail := by
+  unfold St.finish; simp only []; split <;> rfl
+@[simp] theorem loopHead_avail (s : St) (j) : (s.loopHead j).avail = s.avail := by
+  unfold St.loopHead; simp only []; repeat' split
+  all_goals simp [St.put]
+theorem finish_held (s : St) (j i) : ((s.finish j).jobs i).held = (s.jobs i).held := by
+  unfold St.finish; simp only []
+  by_cases h : i = j
+  · subst h; split <;> simp [St.put]
+  · split <;> simp [St.put, upd, h]
+theorem loopHead_held (s : St) (j i) : ((s.loopHead j).jobs i).held = (s.jobs i).held := by
+  unfold St.loopHead; simp only []
+  by_cases h : i = j
+  · subst h; repeat' split
+    all_goals simp [St.put, finish_held]
+  · repeat' split
+    all_goals simp [St.put, upd, h, finish_held]
+theorem eventSet_held (jb : Job) : (eventSet jb).1.held = jb.held := by
+  unfold eventSet; repeat' split
+  all_goals rfl
+
+theorem resume_releases (fl : Flags) (s : St) (j : Nat)
+    (hpc : (s.jobs j).pc = .lockExitAbort ∨ (s.jobs j).pc = .codeWait) :
+    ((s.resume fl j).jobs j).held = [] ∧
+    (∀ t, (s.resume fl j).avail t = s.avail t + (heldTok (s.jobs j) t : Nat)) ∧
+    (∀ i, i ≠ j → ((s.resume fl j).jobs i).held = (s.jobs i).held) := by
+  obtain ⟨notes, _, he⟩ := releaseAll_eq s j (s.jobs j).held
+  unfold St.resume
+  rcases hpc with hpc | hpc
+  · simp only [hpc]
+    rw [he]
+    refine ⟨?_, ?_, ?_⟩
+    · rw [loopHead_held]; simp only [St.put, upd_same]
+      split
+      · rw [eventSet_held]
+      · rfl
+    · intro t; rw [loopHead_avail]; rfl
+    · intro i hi; rw [loopHead_held]; simp [St.put, upd, hi]
+  · simp only [hpc]
+    rw [he]
+    refine ⟨?_, ?_, ?_⟩
+    · rw [finish_held]; simp [St.put]
+    · intro t; rw [finish_avail]; rfl
+    · intro i hi; rw [finish_held]; simp [St.put, upd, hi]
 end XpmVerif.Sched
